@@ -115,7 +115,7 @@ def rule_b(ctx):
         ups = [[uncast(e) for e in flow(a).operand(o, (cb, csi))] for o in rv["ops"]]
         sig_up = [k for k, u in enumerate(ups) if u == [("param", 3)]]
         reg_sig = [uncast(e) for e in flow(a).term_arg(regs[0][0], 0)]
-        ctx.check(len(sig_up) == 1 and reg_sig == [("param", 3)], rid, key + ":registered-for-captured-signal", "the action captures `signal` and is registered for that same `signal`",
+        ctx.check(len(sig_up) >= 1 and reg_sig == [("param", 3)], rid, key + ":registered-for-captured-signal", "the action captures `signal` and is registered for that same `signal`",
                   regs[0][1]["sp"], {"captures": [[show(e) for e in u] for u in ups], "registered_for": [show(e) for e in reg_sig]})
         for ib, it in inits:
             slot = [deep_strip(e) for e in flow(a).term_arg(ib, 1)]
@@ -132,7 +132,7 @@ def rule_b(ctx):
         cl = [c for c in action_closures(F) if c.name == a.name + "::{closure#0}"]
         if len(cl) != 1 or not sig_up:
             raise AnchorLost("action closure of %s" % a.name)
-        cl = cl[0]; k = sig_up[0]
+        cl = cl[0]; k = sig_up[0]; ks = set(sig_up)
         for sb, st in store_calls(F, cl):
             slot = [deep_strip(e) for e in flow(cl).term_arg(sb, 1)]
             idx = []
@@ -145,7 +145,7 @@ def rule_b(ctx):
             s2 = [uncast(e) for e in flow(cl).term_arg(sb, 2)]
 
             def is_up(e):
-                if e[0] != "field" or e[3] != k:
+                if e[0] != "field" or e[3] not in ks:
                     return False
                 b = deep_strip(e[1])
                 while b[0] in ("deref", "ref"):
